@@ -69,7 +69,7 @@ def check(ctx):
         "interface; every linprog call recorded and replayed into model/Poly.v poly_refines (compared exactly in Coq); "
         "must-True when exact containment is certified on dyadic data, must-False when a certified witness in the box "
         "violates by more than the tolerance. non-trivial = verdict is must-True or must-False; distinct by canonical pair")
-    proved = ctx.prove("props/C03.v", ["proofs/PolyFacts.v", "proofs/PolyLP.v"])
+    proved = ctx.prove("props/C03.v", ["proofs/PolyFacts.v", "proofs/PolyLP.v", "proofs/PolyGenEmpty.v", "proofs/PolyGenContain.v"])
     ctx.build(["model/Corr.vo", "base/Farkas.vo"])
     rng = random.Random(ctx.seed)
     n = (300 if ctx.quick else 20000) * (1 if proved else 3)
